@@ -106,13 +106,15 @@ def run_case(case):
     bound = P if P else None
     eff = lim if lim else (P if P else 65536)
     F = max(eff - 6, 1)
-    sizes = sorted(set(s for s in (1, F - 1, F, F + 1, 2 * F + 1, 3 * F + 2) if 1 <= s <= 200000)) or [1]
+    sizes = sorted(set(s for s in (1, F - 1, F, F + 1, 2 * F, 2 * F + 1, 3 * F, 3 * F + 2) if 1 <= s <= 200000)) or [1]
     keys = []
     a.dul.sent[:] = []
     for n in sizes:
         raw = bytes((i * 17 + 1) & 0xFF for i in range(n))
         import io
-        src = raw if (n + len(sizes)) % 2 or n <= F else io.BytesIO(raw)
+        # exact multiples of the fragment size go out from a file-like source (the end-of-data test of the file path), the
+        # others alternate between bytes and file-like
+        src = io.BytesIO(raw) if (n % F == 0 and n >= F) else (raw if (n + len(sizes)) % 2 or n <= F else io.BytesIO(raw))
         msg = msggen.make('CStoreRQMessage', sop_class=A, data_set=src)
         try:
             a.send(msg, 1)
@@ -126,6 +128,10 @@ def run_case(case):
             if over:
                 viol.append((sig + ':exceeds-peer-limit:' + tag, 'P-DATA-TF of length %d sent, peer announced %d (%s, message %d bytes)'
                              % (max(over), bound, where, n)))
+        hd = [f[1] for f in flags if f[1] in (0, 2)]
+        if not hd or hd[-1] != 2 or hd.count(2) != 1:
+            viol.append((sig + ':message-never-completes:' + tag, 'message with %d data bytes: data fragments carry control headers %r - the receiver '
+                         'cannot tell where the message ends (%s; limit in force %r)' % (n, hd[-4:], where, lim)))
         if data != raw or ref_cmd.well_formed(cmd, 0x0001, True):
             viol.append((sig + ':message-not-transmitted:' + tag,
                          'message with %d data bytes: %d P-DATA PDUs produced, %d data bytes, command problems %r (%s; limit in force %r)'
